@@ -430,17 +430,20 @@ namespace Pistache::Http::Experimental
         }
         else
         {
-            Guard guard(timeoutsLock);
-            auto timerIt = timeouts.find(fd);
-            if (timerIt != std::end(timeouts))
+            std::shared_ptr<Connection> connection;
             {
-                auto connection = timerIt->second.lock();
-                if (connection)
+                Guard guard(timeoutsLock);
+                auto timerIt = timeouts.find(fd);
+                if (timerIt != std::end(timeouts))
                 {
-                    connection->handleTimeout();
-                    timeouts.erase(fd);
+                    connection = timerIt->second.lock();
+                    timeouts.erase(timerIt);
                 }
             }
+            // handleTimeout() may hand the connection to a queued request,
+            // which registers its own time-out and takes timeoutsLock again
+            if (connection)
+                connection->handleTimeout();
         }
     }
 
